@@ -675,59 +675,91 @@ func flatten(n []engine.GraphNode, key string, prefix string, into map[string]in
 	}
 }
 
+// judgeWalks compares a traversal tree (the Connections of the start node) with Walks(root, rho).
+func (g *graphRun) judgeWalks(op map[string]any, root int, rho, pathStr string, conns map[string][]engine.GraphNode) {
+	rec := g.rec
+	want := rec.walks[fmt.Sprintf("%d|%s", root, rho)]
+	if len(want) > 0 {
+		g.r.out.Nontrivial++
+	}
+	got := map[string]int{}
+	rootDigit := string("0123456789abcdef"[root])
+	for ck, children := range conns {
+		if ck != pathStr {
+			got["!"+ck]++
+			continue
+		}
+		flatten(children, pathStr, rootDigit, got)
+	}
+	bad := []string{}
+	for _, w := range sortedKeys(want) {
+		if got[w] == 0 && len(w)-1 <= rec.WCap { // exact up to the recursion cap
+			bad = append(bad, "missing walk "+w)
+		}
+	}
+	gk := make([]string, 0, len(got))
+	for w := range got {
+		gk = append(gk, w)
+	}
+	sort.Strings(gk)
+	for _, w := range gk {
+		if !want[w] {
+			bad = append(bad, "walk not in the graph: "+w)
+		} else if got[w] > 1 {
+			bad = append(bad, "walk reported twice: "+w)
+		}
+	}
+	if len(bad) > 0 {
+		if len(bad) > 8 {
+			bad = bad[:8]
+		}
+		g.diverge("traverse_walks", op, fmt.Sprintf("got %d walks, spec %d", len(got), len(want)), bad...)
+	}
+}
+
 func (g *graphRun) traverses() {
 	rec, out := g.rec, g.r.out
 	// the record lists a relation path only when its expected walk set is non-empty, so the list of
 	// paths issued (the WalkSeqs constant of the TLC run) comes with the profile
-	for root := 1; root <= rec.N; root++ {
-		for _, rho := range walkSeqs {
-			pathStr := rhoPath(rho)
+	for _, rho := range walkSeqs {
+		pathStr := rhoPath(rho)
+		for root := 1; root <= rec.N; root++ {
 			op := map[string]any{"op": "VTraverse", "root": node(root), "path": pathStr, "T": 0}
 			g.r.current.Store(op)
 			res, err := g.e.VTraverse(g.idx, node(root), []string{pathStr})
 			out.Queries++
 			out.Traverse++
-			want := rec.walks[fmt.Sprintf("%d|%s", root, rho)]
-			if len(want) > 0 {
-				out.Nontrivial++
-			}
 			if err != nil || res == nil {
 				g.diverge("traverse_error", op, fmt.Sprint(err))
 				continue
 			}
-			got := map[string]int{}
-			rootDigit := string("0123456789abcdef"[root])
-			for ck, children := range res.Connections {
-				if ck != pathStr {
-					got["!"+ck]++
-					continue
+			g.judgeWalks(op, root, rho, pathStr, res.Connections)
+		}
+		// the same traversal below every hit of a search (VSearchGraph, ids only)
+		op := map[string]any{"op": "VSearchGraph", "path": pathStr, "T": 0}
+		g.r.current.Store(op)
+		hits, err := g.e.VSearchGraph(g.idx, []float32{1, 1, 1}, rec.N+decoys+4, "", "", 100, 1.0, []string{pathStr}, false, nil)
+		out.Queries++
+		out.Traverse++
+		if err != nil {
+			g.diverge("traverse_error", op, err.Error())
+			continue
+		}
+		seen := map[int]bool{}
+		for _, h := range hits {
+			root := nodeIdx(h.ID)
+			if root < 1 || root > rec.N {
+				if len(h.Node.Connections) > 0 {
+					g.diverge("traverse_walks", op, fmt.Sprintf("node %s outside the graph has connections", h.ID))
 				}
-				flatten(children, pathStr, rootDigit, got)
+				continue
 			}
-			bad := []string{}
-			for _, w := range sortedKeys(want) {
-				if got[w] == 0 && len(w)-1 <= rec.WCap { // exact up to the recursion cap
-					bad = append(bad, "missing walk "+w)
-				}
-			}
-			gk := make([]string, 0, len(got))
-			for w := range got {
-				gk = append(gk, w)
-			}
-			sort.Strings(gk)
-			for _, w := range gk {
-				if !want[w] {
-					bad = append(bad, "walk not in the graph: "+w)
-				} else if got[w] > 1 {
-					bad = append(bad, "walk reported twice: "+w)
-				}
-			}
-			if len(bad) > 0 {
-				if len(bad) > 8 {
-					bad = bad[:8]
-				}
-				g.diverge("traverse_walks", op, fmt.Sprintf("got %d walks, spec %d", len(got), len(want)), bad...)
-			}
+			seen[root] = true
+			op2 := map[string]any{"op": "VSearchGraph", "root": h.ID, "path": pathStr, "T": 0}
+			g.judgeWalks(op2, root, rho, pathStr, h.Node.Connections)
+		}
+		if len(seen) != rec.N {
+			g.diverge("traverse_error", op, fmt.Sprintf("search returned %d of the %d graph nodes", len(seen), rec.N))
 		}
 	}
 }
